@@ -23,14 +23,14 @@ func init() {
 		Builds:              []string{"default", "386"}, // the 386 build runs 1/12 of the random classes on a 32-bit target
 		Scale386:            12,
 		Parallel:            4, // cases are judged on 4 goroutines per shard: the library functions are stateless, shared state inside them shows up as wrong verdicts
-		Rule: "(public key, message, signature) triples in classes: honest (crypto/ed25519 signatures, message length 0..2500 and around 2^9..2^13), bitflip (1-2 flipped bits), s_plus_jL (S+jL for every j with S+jL < 2^256), torsion (A=[s]B+T, R=[r]B+T' for all 8x8 torsion pairs, S=r+k*s with k over the bytes as given, and the same with S perturbed), smallorder (every encoding of every small-order point incl. non-canonical ones as A and as R, with S=0, S=k*s, S=jL, S=1), noncanonical_y (all 38 encodings with y>=p), s_high (canonical S in the sliver [2^252, L), built from a small-order A and R=[S]B+T', with structured limbs, and S just at/above L), s_limbs (S over the whole 256-bit range built from 64/32/16/8-bit chunks that are 0, 1, all-ones, half-range, the order's chunk, next to it, or the order's chunk plus half the range; small-order A and R=[S mod L]B+T', so that S<L alone decides), r_related_to_key (R == A, the honest signature with nonce r = a; R == -A; R == A+T; with the S that satisfies the equation and the one with the sign of r flipped), rare_encoding (honest keys — thorough: also nonce points — whose canonical encoding has the 15 upper bits of y all set or all clear, or the two lowest bytes 0x0000 / 0xffff, found by grinding 2^21 (2^24) seeds with crypto/ed25519), identity_r (the neutral element in every encoding as R under an honest key, with S = k*a, random S, S in {0,1,2}), undecodable A/R, length (signature lengths 0..70 and 64+256, 64+512, 64+65536), random, concurrent (8 goroutines verify their own message/signature pairs, valid and not, under one key, all passing the same PublicKey slice; expectations from the model), and sequence (2..6 consecutive calls on the related keys A and -A, which differ in the sign bit only, with signatures of either, torsion-shifted keys and undecodable R in between: every verdict must equal the predicate of that call alone; the inputs of a sequence are passed in buffers that are overwritten in place between the calls, and some steps first call Sign with a well-formed or a mismatched (seed of one key, public half of another) private key and verify the result). " +
+		Rule: "(public key, message, signature) triples in classes: honest (crypto/ed25519 signatures, message length 0..2500 and around 2^9..2^13), bitflip (1-2 flipped bits), s_plus_jL (S+jL for every j with S+jL < 2^256), torsion (A=[s]B+T, R=[r]B+T' for all 8x8 torsion pairs, S=r+k*s with k over the bytes as given, and the same with S perturbed), smallorder (every encoding of every small-order point incl. non-canonical ones as A and as R, with S=0, S=k*s, S=jL, S=1), noncanonical_y (all 38 encodings with y>=p), s_high (canonical S in the sliver [2^252, L), built from a small-order A and R=[S]B+T', with structured limbs, and S just at/above L), s_limbs (S over the whole 256-bit range built from 64/32/16/8-bit chunks that are 0, 1, all-ones, half-range, the order's chunk, next to it, or the order's chunk plus half the range; small-order A and R=[S mod L]B+T', so that S<L alone decides), r_related_to_key (R == A, the honest signature with nonce r = a; R == -A; R == A+T; with the S that satisfies the equation and the one with the sign of r flipped), rare_encoding (honest keys — thorough: also nonce points — whose canonical encoding has the 15 upper bits of y all set or all clear, or the two lowest bytes 0x0000 / 0xffff, found by grinding 2^21 (2^24) seeds with crypto/ed25519), identity_r (the neutral element in every encoding as R under an honest key, with S = k*a, random S, S in {0,1,2}), undecodable A/R (with an honest signature, and with the signature that would verify if the undecodable point were taken for the neutral element), bigmsg (messages of 4 KiB..400 KiB with a length within 72 of m*2^j, j = 12..17, m = 1..3: honest, and with one bit flipped near the end or start of the message), length (signature lengths 0..70 and 64+256, 64+512, 64+65536), random, concurrent (8 goroutines verify their own message/signature pairs, valid and not, under one key, all passing the same PublicKey slice; expectations from the model), and sequence (2..6 consecutive calls on the related keys A and -A, which differ in the sign bit only, with signatures of either, torsion-shifted keys and undecodable R in between: every verdict must equal the predicate of that call alone; the inputs of a sequence are passed in buffers that are overwritten in place between the calls, and some steps first call Sign with a well-formed or a mismatched (seed of one key, public half of another) private key and verify the result). " +
 			"Every Verify call is judged two-sidedly against the big-integer ZIP-215 model and one-sidedly against crypto/ed25519 (std accept => accept). Non-trivial: every distinct triple outside class random.",
 		Assumptions: []string{"SHA-512 of the Go standard library", "math/big", "the ZIP-215 model in harness/oracle/ed (self-tested against RFC 8032 vectors, crypto/ed25519 and the known small-order encodings)"},
 		SelfTest:    ed.SelfTest,
 		Gen:         gen,
 		Judge:       judge,
 		Render:      render,
-		Required:    []string{"rare_encoding model=accept", "r_related_to_key model=accept", "r_related_to_key model=reject", "identity_r model=accept", "identity_r model=reject", "concurrent executions on one shared key slice", "s_limbs model=accept", "s_limbs model=reject", "s_high model=accept", "s_high model=reject", "sequence: sign-then-verify steps", "model=accept impl=accept", "model=reject impl=reject", "std=accept", "sequence step model=accept", "sequence step model=reject"},
+		Required:    []string{"rare_encoding model=accept", "bigmsg model=accept", "bigmsg model=reject", "r_related_to_key model=accept", "r_related_to_key model=reject", "identity_r model=accept", "identity_r model=reject", "concurrent executions on one shared key slice", "s_limbs model=accept", "s_limbs model=reject", "s_high model=accept", "s_high model=reject", "sequence: sign-then-verify steps", "model=accept impl=accept", "model=reject impl=reject", "std=accept", "sequence step model=accept", "sequence step model=reject"},
 	})
 }
 
@@ -45,6 +45,10 @@ func render(class string, key []byte) interface{} {
 			calls = append(calls, map[string]string{"public_key_or_private_key_of_a_sign_step": fw.Hex(p[i]), "message": fw.Hex(p[i+1]), "signature": fw.Hex(p[i+2])})
 		}
 		return map[string]interface{}{"calls_in_order": calls}
+	}
+	if class == "bigmsg" {
+		q := bigCase(fw.GetU64(p[0]), int(fw.GetU32(p[1])), p[2][0])
+		return map[string]interface{}{"seed": fw.GetU64(p[0]), "message_length": fw.GetU32(p[1]), "variant": map[byte]string{0: "honest signature", 1: "one bit of the last 64 message bytes flipped", 2: "one bit of the first 64 message bytes flipped"}[p[2][0]], "public_key": fw.Hex(q[0]), "signature": fw.Hex(q[2])}
 	}
 	return map[string]string{"public_key": fw.Hex(p[0]), "message": fw.Hex(p[1]), "signature": fw.Hex(p[2])}
 }
@@ -92,6 +96,9 @@ func judge(class string, key []byte, o *fw.Obs) {
 		judgeConcurrent(fw.GetU64(p[0]), o)
 		return
 	}
+	if class == "bigmsg" {
+		p = bigCase(fw.GetU64(p[0]), int(fw.GetU32(p[1])), p[2][0])
+	}
 	pub, msg, sig := p[0], p[1], p[2]
 	if class != "random" {
 		o.Nontrivial()
@@ -124,6 +131,32 @@ func judge(class string, key []byte, o *fw.Obs) {
 			o.Fail("std", "crypto/ed25519 accepts this signature but Verify rejects it")
 		}
 	}
+}
+
+// bigCase derives a key pair, a message of n bytes and its signature from a seed (messages of tens or hundreds
+// of KiB are not carried in the case key). variant 1: one bit of the last 64 message bytes flipped after signing;
+// variant 2: one bit of the first 64 bytes.
+func bigCase(seed uint64, n int, variant byte) [][]byte {
+	r := fw.SubRng(int64(seed), "c01-bigmsg")
+	sd := make([]byte, 32)
+	r.Read(sd)
+	sk := stded.NewKeyFromSeed(sd)
+	msg := make([]byte, n)
+	r.Read(msg)
+	sig := stded.Sign(sk, msg)
+	w := 64
+	if n < w {
+		w = n
+	}
+	if n > 0 {
+		switch variant {
+		case 1:
+			msg[n-1-r.Intn(w)] ^= 1 << uint(r.Intn(8))
+		case 2:
+			msg[r.Intn(w)] ^= 1 << uint(r.Intn(8))
+		}
+	}
+	return [][]byte{[]byte(sk[32:]), msg, sig}
 }
 
 // selByte derives a selector bit from the contents of the case (an empty message is passed as nil in half of the cases).
@@ -380,11 +413,30 @@ func gen(g *fw.Gen) {
 		sk := stded.NewKeyFromSeed(seed)
 		msg := randMsg(g)
 		sig := stded.Sign(sk, msg)
-		if n%2 == 0 {
+		switch n % 4 {
+		case 0:
 			emit(g, "undecodable", bad, msg, sig)
-		} else {
+		case 1:
 			emit(g, "undecodable", []byte(sk[32:]), msg, append(append([]byte(nil), bad...), sig[32:]...))
+		case 2:
+			// undecodable A with the signature that verifies if A is taken for the neutral element: R = [r]B, S = r
+			r := randScalar(g)
+			emit(g, "undecodable", bad, msg, sigOf(ed.BaseMul(r).Encode(), r))
+		default:
+			// undecodable R with the S that verifies if R is taken for the neutral element: S = k*a, k over the bytes as given
+			a := randScalar(g)
+			A := ed.BaseMul(a).Encode()
+			S := new(big.Int).Mul(ed.HashModL(bad, A, msg), a)
+			emit(g, "undecodable", A, msg, sigOf(bad, S.Mod(S, ed.L)))
 		}
+	}
+
+	// messages of 4 KiB .. 400 KiB whose length is next to a multiple of a power of two (an implementation that
+	// hashes in blocks or chunks gets the last partial chunk wrong only for some residues): m * 2^j + d,
+	// j = 12..17, m = 1..3, |d| <= 72; honest, and with one bit of the message flipped near its end or start
+	for n := g.ShareOf(800, 40000); n > 0; n-- {
+		l := (1+g.Rng.Intn(3))<<uint(12+g.Rng.Intn(6)) + g.Rng.Intn(145) - 72
+		g.Emit("bigmsg", fw.Pack(fw.U64(g.Rng.Uint64()), fw.U32(uint32(l)), []byte{byte(g.Rng.Intn(4) % 3)}))
 	}
 
 	// canonical S in the top sliver [2^252, L): honest signatures land there with probability 2^-127, so
